@@ -15,8 +15,30 @@ Section C03.
   Theorem C03_every_form_same_value : forall v b, encodes v b ->
     (1 <= length b)%nat /\
     forall f rest, (length b < f)%nat ->
-      exists t, parse cfg f (b ++ rest) = POk t rest /\ denote t = v /\ (forall a, v = VAtom a -> t = TAtom a).
-  Proof. exact (proj1 (spec_sound cfg Harms)). Qed.
+      exists t, parse cfg f (b ++ rest) = POk t rest /\ denote t = v /\
+                (forall a, v = VAtom a -> t = TAtom a) /\ (forall n i s c, v = VPid n i s c -> exists p, t = TPid p).
+  Proof.
+    intros v b H. destruct (proj1 (spec_sound cfg Harms) v b H) as [Hl Hp]. split; [exact Hl|].
+    intros f rest Hf. destruct (Hp f rest Hf) as (t & Et & Dt & Hs). exists t. split; [exact Et|]. split; [exact Dt|].
+    split; [intros a ->; exact Hs|intros n i s c ->; exact Hs].
+  Qed.
+
+  (* a fun of a conforming peer — any Size field, the module in a legacy atom form, OldIndex as INTEGER_EXT, the pid in
+     the legacy layout, a free variable as a non-minimal big integer — is in the relation *)
+  Example C03_example_new_fun :
+    encodes (VIntFun 2 (repeat 7 16) 3 1 [109] 5 6 (VPid [110] 1 2 3) [VInt 9])
+            (112 :: be 4 99 ++ 2 :: repeat 7 16 ++ be 4 3 ++ be 4 1 ++ [115; 1; 109] ++ (98 :: be 4 5) ++ [97; 6] ++
+             (103 :: [119; 1; 110] ++ be 4 1 ++ be 4 2 ++ [3]) ++ ([110; 2; 0; 9; 0] ++ [])).
+  Proof.
+    apply (E_new_fun 99 2 (repeat 7 16) 3 [109] [115; 1; 109] 5 (98 :: be 4 5) 6 [97; 6] [110] 1 2 3
+             (103 :: [119; 1; 110] ++ be 4 1 ++ be 4 2 ++ [3]) [VInt 9] ([110; 2; 0; 9; 0] ++ []));
+      try reflexivity.
+    - exact (E_small_atom_latin1 [109] ltac:(reflexivity)).
+    - apply IF_integer. reflexivity.
+    - apply IF_small. reflexivity.
+    - apply (E_pid [110] [119; 1; 110] 1 2 3); try reflexivity. exact (E_small_atom_utf8 [110] ltac:(reflexivity) ltac:(reflexivity)).
+    - apply ES_cons; [exact (E_small_big [9; 0] 0 ltac:(reflexivity) ltac:(reflexivity))|apply ES_nil].
+  Qed.
 
   Theorem C03_decode_every_form : forall v b, encodes v b -> exists t, decode cfg (tag_version :: b) = DOk t /\ denote t = v.
   Proof. exact (decode_sound cfg Harms). Qed.
